@@ -140,7 +140,24 @@ def spec_equal(a, b, exact=False, delta=0.001):
     if a is None or b is None:
         return a is b
     if isinstance(a, (set, frozenset)) and isinstance(b, (set, frozenset)):
-        return None
+        # equal as sets under the same element relation; specified only for two sets of the same type and only where the
+        # pairing of elements is unambiguous
+        if type(a) is not type(b):
+            return None
+        if len(a) != len(b):
+            return False
+        used = []
+        for x in a:
+            rs = [(y, spec_equal(x, y, exact, delta)) for y in b]
+            if any(r is None for _, r in rs):
+                return None
+            cands = [y for y, r in rs if r]
+            if not cands:
+                return False
+            if len(cands) > 1:
+                return None
+            used.append(cands[0])
+        return True if len(set(map(repr, used))) == len(used) else None
     if type(a) is not type(b):
         return False
     return None
@@ -241,9 +258,9 @@ def correspondence(ctx):
     def kind(v):
         return 'num' if isinstance(v, (int, float)) and not isinstance(v, bool) else type(v).__name__
     same_kind = [(i, j) for i in range(n) for j in range(n) if kind(VALUES[i]) == kind(VALUES[j])
-                 and kind(VALUES[i]) in ('dict', 'list', 'tuple', 'str', 'num')]
+                 and kind(VALUES[i]) in ('dict', 'list', 'tuple', 'str', 'num', 'set', 'frozenset')]
     for i, j in same_kind:
-        for kw in ({'exact_strings': True}, {'delta': 0.1}, {'delta': 0.00001}):
+        for kw in ({'exact_strings': True}, {'delta': 0.1}, {'delta': 0.00001}, {'delta': 0.5}):
             if ctx.tier == 'quick' and rng.random() < 0.5:
                 continue
             cases.append({'assertion': 'assert_equal', 'left': i, 'right': j, 'wl': False, 'wr': False, 'kwargs': kw})
